@@ -6,7 +6,8 @@ import SaramaVerif.Model.OffsetMgr
     seq <auto 0|1> <retryMax> <retention 0|1> <initial> <st0,st1,...> ; <op> ; <op> ; ...
 
   st_i = `n` (nothing stored) or `offset:md`.  Operations:
-    mg p | mk p o m | rs p o m | nx p | ac p
+    mg p | mg p f <retries> <lk><ans>*  (initial fetch fault script: ans = ok|nc|ld|fe|x|k<code>)
+    mk p o m | rs p o m | nx p | ac p
     cm a <lk> <reply> [w mk p o m | w rs p o m]*                (Commit(): one attempt)
     cl [a <lk> <reply> [w ...]*]*                                (Close(): scripted final attempts)
   lk = 1 (lookup succeeds) | 0 | 2 (RefreshCoordinator / Coordinator fails);
@@ -126,6 +127,24 @@ def fin (s : Sys) (errs : List (List Err)) (txt : String) : Sys × String :=
 
 def validP (s : Sys) (p : String) : Bool := p.toNat?.isSome && nat! p < s.parts.length
 
+def parseFetchAns (t : String) : Option FetchAns :=
+  if t = "ok" then some .ok else if t = "nc" then some .notCoord else if t = "ld" then some .loading
+  else if t = "fe" then some .reqErr else if t = "x" then some .missing
+  else if t.startsWith "k" then some (.other (int! (t.drop 1).toString)) else none
+
+/-- `<lk 0|1><ok|nc|ld|fe|x|k<code>>` -/
+def parseFetchAtt (t : String) : Option FetchAtt :=
+  match parseFetchAns (t.drop 1).toString with
+  | some a => if t.startsWith "1" then some ⟨true, a⟩ else if t.startsWith "0" then some ⟨false, a⟩ else none
+  | none => none
+
+def parseFetchAtts : List String → Option (List FetchAtt)
+  | [] => some []
+  | t :: ts =>
+    match parseFetchAtt t, parseFetchAtts ts with
+    | some a, some as => some (a :: as)
+    | _, _ => none
+
 /-- one operation of a case; `none` = malformed. The Bool of the state: `Close()` was called. -/
 def doOp (c : Cfg) (s : Sys) (closed : Bool) : List String → Option (Sys × Bool × String)
   | ["mg", p] =>
@@ -137,6 +156,20 @@ def doOp (c : Cfg) (s : Sys) (closed : Bool) : List String → Option (Sys × Bo
         some (s', closed, t)
       | none => none
     else none
+  | "mg" :: p :: "f" :: r :: atts =>
+    -- ManagePartition with a fault script for the initial fetch (`r` = Metadata.Retry.Max)
+    if c.real || !validP s p || r.toNat?.isNone then none else
+    match parseFetchAtts atts, s.parts[nat! p]? with
+    | some script, some q =>
+      match fetchInitial s.broker (nat! r) script with
+      | .ok _ =>
+        let (s', t) := fin (stepSys s (.manage (nat! p))) (noErrs s)
+                        (if q.live then "dup" else "new " ++ showPair (fetched q.store))
+        some (s', closed, t)
+      | .fail e b =>
+        let (s', t) := fin (stepSys s (.manageFailed b)) (noErrs s) ("mgerr " ++ showErr e)
+        some (s', closed, t)
+    | _, _ => none
   | ["mk", p, o, m] =>
     if validP s p then
       let (s', t) := fin (stepSys s (.mark (nat! p) (int! o) (int! m))) (noErrs s) "mk"
